@@ -73,6 +73,8 @@ fn column_of(kind: ElementKind, key: &str) -> Option<&'static str> {
 /// The dot path a matcher key reads in the rendered view.
 fn view_key(kind: ElementKind, key: &str) -> String {
     match (kind, key) {
+        // The envelope keeps the lifecycle state under `_system` (§53.1).
+        (_, "state") => "_system.state".to_string(),
         (ElementKind::Concept, "type") => "schema_ref".to_string(),
         (ElementKind::Evidence, "class") => "evidence_class".to_string(),
         (ElementKind::Activity, "class") => "activity_class".to_string(),
@@ -123,22 +125,30 @@ impl Context<'_> {
         let mut by_id: Option<ElementId> = None;
 
         let historical = self.is_historical();
+        // A concrete `id` skips the index altogether, so nothing pushed into
+        // `filters` would ever be asked of it.
+        let names_id = matcher.iter().any(|(key, value)| {
+            matches!(column_of(kind, key), Some("__id"))
+                && matches!(value, MatchValue::Literal(_) | MatchValue::Param(_))
+        });
         for (key, value) in matcher {
             let slot = self.classify(value)?;
             if key == "state" {
                 constrains_state = true;
             }
-            // At a past coordinate the indexes describe the present, so every
-            // constraint is decided against the historical element instead —
-            // after the same normalization the index path applies, or a local
-            // type name would be compared against the exact symbol it
-            // resolves to and never match.
-            if historical && !matches!(column_of(kind, key), Some("__id")) {
-                let slot = match slot {
-                    Slot::Value(value) => {
+            // At a past coordinate the indexes describe the present, and a
+            // named id never consults them, so every constraint is decided
+            // against the loaded element instead — after the same
+            // normalization the index path applies to an indexed key, or a
+            // local type name would be compared against the exact symbol it
+            // resolves to and never match. A key with no index is compared as
+            // written, exactly as the index path compares it.
+            if (historical || names_id) && !matches!(column_of(kind, key), Some("__id")) {
+                let slot = match (slot, column_of(kind, key)) {
+                    (Slot::Value(value), Some(_)) => {
                         Slot::Value(Json::String(self.matcher_text(kind, key, &value)?))
                     }
-                    bind => bind,
+                    (slot, _) => slot,
                 };
                 post.push((key.clone(), slot));
                 continue;
